@@ -325,7 +325,7 @@ def run(ctx):
     rng = ctx.rng
     import os
     os.environ["VERIF_EXTRA_METATYPES"] = EXTRA
-    n = 3000 if ctx.tier == "thorough" else 600
+    n = 9000 if ctx.tier == "thorough" else 600
     trees = []
     for i in range(n):
         mis = 0.0 if i % 3 else 0.12
